@@ -66,7 +66,8 @@ def bounded(tier, seed):
             fi = os.path.join(root, ".flowmarkignore")
             fl = [l for l in open(fi).read().splitlines() if l.strip()] if os.path.exists(fi) else None
             cfg = rnd.choice([{}, {"extend_include": ["*.mdx"]}, {"exclude": ["docs/"]}, {"extend_exclude": ["sub/", "deep/"]},
-                              {"files_max_size": LIMIT}, {"files_max_size": 0}, {"include": ["*.txt"]},
+                              {"files_max_size": LIMIT}, {"files_max_size": 0}, {"include": ["*.txt"]}, {"exclude": []},
+                              {"exclude": [], "extend_exclude": ["docs/"]},
                               {"extend_exclude": ["docs/sub/", "src/deep/", "sub/docs/", "deep/src/", "a b/sub/", "docs/src/"]}])
             want = reference(root, cfg, fl)
             r = FileResolver(FileResolverConfig(respect_gitignore=False, **cfg))
@@ -146,7 +147,7 @@ def bounded(tier, seed):
             shutil.rmtree(base, ignore_errors=True)
     return {"evaluations": evals, "distinct_nontrivial": len(distinct), "violations": viol, "samples": samples,
             "rule": "seeded trees (directories/files from fixed pools, nesting <= 3, symlinks to a file and a directory outside the tree and "
-                    "to a file inside, file sizes around the limit, a root .flowmarkignore) x 8 settings (incl. multi-segment user exclusions): traversal result == reference "
+                    "to a file inside, file sizes around the limit, a root .flowmarkignore) x 10 settings (incl. multi-segment user exclusions and an empty exclude list, which switches the default exclusions off): traversal result == reference "
                     "walk written from the property; sorted/distinct/absolute; same result for permuted and duplicated arguments (also two directory arguments, one nested in a directory the outer walk prunes, in both orders), also when files are named again through '..' / relative spellings (no file twice, canonical paths); "
                     "explicit files bypass exclusions but not the size limit; glob results pass the same filters; distinct = distinct "
                     "reference results",
